@@ -144,15 +144,12 @@ def lean_stage(seed, tier):
     def compute():
         res = {"ok": True, "errors": [], "translator": {}}
         # 1. regenerate the translated modules from /repo
-        try:
-            import translate
-            res["translator"] = translate.run(REPO, os.path.join(LEAN_DIR, "EnumToolsModel", "Generated"))
-        except ImportError:
-            res["translator"] = {"skipped": "translator not built yet"}
-        except Exception as e:  # translator could not read the source: tie broken
+        import translate
+        res["translator"] = translate.run(REPO, os.path.join(LEAN_DIR, "EnumToolsModel", "Generated"))
+        for mod, msg in res["translator"].get("errors", {}).items():
+            # the tie of this module is broken; the stale text is kept so that everything else still builds
             res["ok"] = False
-            res["errors"].append({"kind": "translator", "msg": str(e)})
-            return res
+            res["errors"].append({"kind": "translator", "module": "EnumToolsModel.Generated." + mod.replace(".lean", ""), "msg": msg})
         # 2. forbidden constructs
         hits = []
         for dp, _, fns in os.walk(os.path.join(LEAN_DIR)):
